@@ -4,7 +4,7 @@ usage: python mdsim/confirm_seeded.py <property> <seeded-id> <dir with patch.dif
 
 Steps (all in a scratch worktree outside /repo and /verif, removed afterwards):
   1. patch applies on /repo HEAD; 2. demo fails with the change; 3. demo passes without it;
-  4. the repository's test suite passes with the change (pytest -n 6);  5. run the registered check (quick tier)
+  4. the repository's test suite passes with the change (the baseline pytest command, single process);  5. run the registered check (quick tier)
   against the changed tree and record whether it reports a replayable violation.
 """
 
@@ -56,7 +56,9 @@ def main():
         meta["confirmed"]["demo_with_change_tail"] = out1.strip().splitlines()[-3:]
         if not skip_suite:
             t0 = time.time()
-            rc, out = sh([PY, "-m", "pytest", "-q", "-p", "no:cacheprovider", "-n", "6", "tests/"], cwd=wt, env=env, timeout=5400)
+            # the baseline command itself (single process: xdist workers get different hash seeds, which makes hash-dependent
+            # parametrisations collect differently per worker and is slower on a loaded machine anyway)
+            rc, out = sh([PY, "-m", "pytest", "-q", "-p", "no:cacheprovider", "--timeout=900", "tests/"], cwd=wt, env=env, timeout=5400)
             tail = [l for l in out.strip().splitlines() if "passed" in l or "failed" in l][-1:]
             meta["confirmed"]["suite_with_change"] = {"exit": rc, "tail": tail, "seconds": round(time.time() - t0)}
             if rc != 0:
